@@ -1,5 +1,26 @@
 """pyxel/data_structure/charge.py + pyxel/detectors/geometry.py -> Gen_C14.v
 
+NORMALISATIONS applied before any shape is matched (translator/c14_norm.py; general, never keyed on a text):
+  * the straight-line functions (convert_df_to_array, convert_array_to_df, the two geometry functions, the njit
+    kernel's prelude and loop body) are read SYMBOLICALLY, statement by statement: a name stands for the expression
+    it was last assigned, expanded at the time of the assignment (so aliases `geo = self._geo`, named intermediate
+    results, renamed / reassigned locals, `x += e`, tuple unpacking of tuple literals, annotations, docstrings,
+    comments, logging calls all disappear; an alias taken BEFORE a reassignment keeps the old value); in-place update
+    of a local that has an alias fails closed
+  * a name assigned exactly once at module level to a literal is replaced by the literal
+  * a call of a helper defined in the same module / class (`h(..)`, `self.h(..)`, `Charge.h(..)`, `cls.h(..)`,
+    static / class / instance method) whose body is itself straight-line is replaced by its returned expression with
+    parameters bound to the arguments (positional / keyword / literal defaults); other calls are left for the matcher
+  * the mask recognises "the first / second index array" by what it COMPUTES (it translates to the same integral
+    Gallina expression), not by its name, so it may be built before the `.astype(int)`, in named pieces, by a helper
+  * the kernel: `enumerate`, `range(len(V))`, `range(0, len(V), 1)`, `range(V.size)`, `range(V.shape[0])`, manual
+    counter (`i = 0` before, `i += 1` last), loop-local names, aliases of the parameters; or no kernel at all:
+    `np.add.at(array, (I, J), V)` on the local zeros array
+  * the geometry helpers are recognised by what they are IMPORTED from, and may be given positional arguments
+  * object identity: private helper methods called as statements are read as part of their caller; the result of a
+    private helper (method / module function) is classified by its own `return`s (a returned parameter stands for the
+    argument); in-place accumulation into a local alias of `self._array` counts as accumulation into `self._array`
+
 Extracted (fail closed on any other shape):
   * Charge.convert_df_to_array
       - the inner njit loop: `for i, v in enumerate(VALS): ARR[A[i], B[i]] += v` (or `for i in range(len(VALS))`),
@@ -46,6 +67,7 @@ from pathlib import Path
 
 from harness.core import TranslationError
 
+from .c14_norm import Sym, imported_names, inline_method_calls
 from .common import HEADER, body_no_doc, fail, find_func, parse
 
 CHARGE = "pyxel/data_structure/charge.py"
@@ -99,21 +121,6 @@ def _args(call: ast.Call, params: list[str]) -> dict[str, ast.AST]:
             fail(call, f"unexpected or repeated keyword {k.arg!r}")
         out[k.arg] = k.value
     return out
-
-
-def _single_assignments(stmts, fn) -> dict[str, ast.AST]:
-    env: dict[str, ast.AST] = {}
-    for st in stmts:
-        if isinstance(st, ast.AnnAssign) and st.value is not None and isinstance(st.target, ast.Name):
-            tgt, val = st.target.id, st.value
-        elif isinstance(st, ast.Assign) and len(st.targets) == 1 and isinstance(st.targets[0], ast.Name):
-            tgt, val = st.targets[0].id, st.value
-        else:
-            fail(st, f"{fn}: statement shape not accepted")
-        if tgt in env:
-            fail(st, f"{fn}: {tgt} is assigned twice")
-        env[tgt] = val
-    return env
 
 
 # ------------------------------------------------------------------------------------------ convert_df_to_array
@@ -211,15 +218,22 @@ class _IndexExpr:
         fail(node, "index expression shape not accepted")
 
 
-def _mask_expr(node: ast.AST, env, iv_name: str, ih_name: str) -> str:
-    """Boolean mask over the two index arrays -> Gallina bool over iv ih rows cols : Z."""
+def _mask_expr(node: ast.AST, tf: str, ts: str) -> str:
+    """Boolean mask (fully expanded expression) over the two index arrays -> Gallina bool over iv ih rows cols : Z.
+    An operand IS the first / second index array when it translates to the same integral Gallina expression
+    (`tf` / `ts`) -- whatever it is called and whether or not the `.astype(int)` has been applied yet."""
+    ix = _IndexExpr({})
 
     def z(n) -> str:
+        try:
+            k, t = ix.tr(n)
+        except TranslationError:
+            k = t = None
+        if k == "Z" and t == tf:
+            return "iv"
+        if k == "Z" and t == ts:
+            return "ih"
         if isinstance(n, ast.Name):
-            if n.id == iv_name:
-                return "iv"
-            if n.id == ih_name:
-                return "ih"
             fail(n, "the mask may only mention the two index arrays handed to the loop")
         ga = _geo_attr(n)
         if ga == "row":
@@ -252,8 +266,6 @@ def _mask_expr(node: ast.AST, env, iv_name: str, ih_name: str) -> str:
     def b(n, depth=0) -> str:
         if depth > 40:
             fail(n, "mask too deep")
-        if isinstance(n, ast.Name) and n.id in env and n.id not in (iv_name, ih_name):
-            return b(env[n.id], depth + 1)
         if isinstance(n, ast.BinOp) and isinstance(n.op, (ast.BitAnd, ast.BitOr)):
             return f"({b(n.left, depth + 1)} {'&&' if isinstance(n.op, ast.BitAnd) else '||'} {b(n.right, depth + 1)})"
         if isinstance(n, ast.UnaryOp) and isinstance(n.op, ast.Invert):
@@ -278,48 +290,96 @@ def _mask_expr(node: ast.AST, env, iv_name: str, ih_name: str) -> str:
 
 
 def _loop(inner: ast.FunctionDef):
-    """-> (params, array param, first-subscript param, second-subscript param, value param, accumulates)"""
+    """-> (params, array param, first-subscript param, second-subscript param, value param, accumulates)
+
+    Accepted headers (i = the position of the current cluster, v = its value):
+        for i, v in enumerate(VALS)              for i in range(len(VALS)) / range(VALS.size) / range(VALS.shape[0])
+        i = 0; for v in VALS: ...; i += 1        (manual counter, initialised to 0 just before the loop, incremented
+                                                  by 1 as the LAST statement of the body)
+    Body: any number of assignments of loop-local names (substituted), then ONE store `ARR[A[i], B[i]] += v`."""
     if inner.args.vararg or inner.args.kwarg or inner.args.kwonlyargs or inner.args.posonlyargs or inner.args.defaults:
         fail(inner, "inner loop function parameter kinds")
     decs = [ast.unparse(d.func if isinstance(d, ast.Call) else d) for d in inner.decorator_list]
     if decs not in (["njit"], ["numba.njit"], ["jit"], ["numba.jit"], []):
         fail(inner, "inner loop function decorators")
     params = [a.arg for a in inner.args.args]
-    body = body_no_doc(inner)
-    if len(body) != 2 or not isinstance(body[0], ast.For) or not isinstance(body[1], ast.Return) or body[0].orelse:
+    body = [st for st in body_no_doc(inner) if not isinstance(st, ast.Pass)]
+    # straight-line prelude (aliases of the parameters, the counter of a manual loop), then the loop, then the return
+    k = next((i for i, st in enumerate(body) if isinstance(st, ast.For)), None)
+    if k is None or len(body) != k + 2 or not isinstance(body[-1], ast.Return) or body[k].orelse:
         fail(inner, "inner loop function must be `for ...: ...` followed by `return <array>`")
-    loop, ret = body
-    if not (isinstance(ret.value, ast.Name) and ret.value.id in params):
+    sym = Sym(ast.Module(body=[], type_ignores=[]))
+    pre: dict[str, ast.AST] = {}
+    sym.run(body[:k], pre, where=inner.name)
+    for name in pre:
+        if name in params:
+            fail(inner, f"{inner.name}: parameter {name} is rebound before the loop")
+    loop, ret = body[k], body[-1]
+    retv = sym.expand(ret.value, {n: v for n, v in pre.items() if isinstance(v, ast.Name)})
+    if not (isinstance(retv, ast.Name) and retv.id in params):
         fail(ret, "the loop function must return its array parameter")
-    arr = ret.value.id
-    it = loop.iter
+    arr = retv.id
+
+    def as_param(n):
+        """a parameter, possibly through an alias taken before the loop"""
+        n = sym.expand(n, pre)
+        return n.id if isinstance(n, ast.Name) and n.id in params else None
+
+    it = sym.expand(loop.iter, pre)
     val_param = idx = val_name = None
+    lbody = [st for st in loop.body if not isinstance(st, ast.Pass)]
     if (isinstance(it, ast.Call) and isinstance(it.func, ast.Name) and it.func.id == "enumerate" and len(it.args) == 1
             and not it.keywords and isinstance(it.args[0], ast.Name) and isinstance(loop.target, ast.Tuple)
             and len(loop.target.elts) == 2 and all(isinstance(e, ast.Name) for e in loop.target.elts)):
         val_param, idx, val_name = it.args[0].id, loop.target.elts[0].id, loop.target.elts[1].id
-    elif (isinstance(it, ast.Call) and isinstance(it.func, ast.Name) and it.func.id == "range" and len(it.args) == 1
-          and not it.keywords and isinstance(loop.target, ast.Name)):
-        a = it.args[0]
+    elif (isinstance(it, ast.Call) and isinstance(it.func, ast.Name) and it.func.id == "range" and not it.keywords
+          and isinstance(loop.target, ast.Name) and 1 <= len(it.args) <= 3):
+        if len(it.args) >= 2 and _num(it.args[0]) != 0:
+            fail(it, "range(...) must start at 0")
+        if len(it.args) == 3 and _num(it.args[2]) != 1:
+            fail(it, "range(...) must step by 1")
+        a = it.args[0] if len(it.args) == 1 else it.args[1]
         if (isinstance(a, ast.Call) and isinstance(a.func, ast.Name) and a.func.id == "len" and len(a.args) == 1
                 and isinstance(a.args[0], ast.Name)):
             val_param = a.args[0].id
         elif isinstance(a, ast.Attribute) and a.attr == "size" and isinstance(a.value, ast.Name):
             val_param = a.value.id
+        elif (isinstance(a, ast.Subscript) and isinstance(a.value, ast.Attribute) and a.value.attr == "shape"
+              and isinstance(a.value.value, ast.Name) and _num(a.slice) == 0):
+            val_param = a.value.value.id
         else:
             fail(it, "range(...) must run over the length of the value array")
         idx = loop.target.id
+    elif isinstance(it, ast.Name) and it.id in params and isinstance(loop.target, ast.Name):
+        # manual counter
+        cnt = [n for n, v in pre.items() if _num(v) == 0]
+        last = lbody[-1] if lbody else None
+        if not (isinstance(last, ast.AugAssign) and isinstance(last.op, ast.Add) and isinstance(last.target, ast.Name)
+                and last.target.id in cnt and _num(last.value) == 1):
+            fail(loop, "loop over the values without enumerate: the last statement must increment a counter "
+                       "initialised to 0 before the loop")
+        val_param, idx, val_name = it.id, last.target.id, loop.target.id
+        lbody = lbody[:-1]
+        if any(isinstance(e, ast.Name) and e.id == idx and isinstance(e.ctx, ast.Store)
+               for st in lbody for e in ast.walk(st)):
+            fail(loop, "the counter is assigned inside the loop")
     else:
         fail(loop, "loop header not accepted")
     if val_param not in params:
         fail(loop, "the loop must run over a parameter")
-    if len(loop.body) != 1:
-        fail(loop, "the loop body must be one statement")
-    st = loop.body[0]
+    if not lbody:
+        fail(loop, "empty loop body")
+    # loop-local names: substituted into the store
+    env = {n: v for n, v in pre.items() if n != idx}
+    sym.run(lbody[:-1], env, where=inner.name)
+    for name in set(env) - set(pre):
+        if name in params or name in (idx, val_name):
+            fail(loop, f"{name} is rebound inside the loop")
+    st = lbody[-1]
     if isinstance(st, ast.AugAssign) and isinstance(st.op, ast.Add):
-        tgt, rhs, acc = st.target, st.value, True
+        tgt, rhs, acc = sym.expand(st.target, env), sym.expand(st.value, env), True
     elif isinstance(st, ast.Assign) and len(st.targets) == 1:
-        tgt, rhs, acc = st.targets[0], st.value, False
+        tgt, rhs, acc = sym.expand(st.targets[0], env), sym.expand(st.value, env), False
         # `a[i, j] = a[i, j] + v` is an accumulation too
         if isinstance(rhs, ast.BinOp) and isinstance(rhs.op, ast.Add):
             l, r = ast.unparse(rhs.left), ast.unparse(rhs.right)
@@ -336,10 +396,13 @@ def _loop(inner: ast.FunctionDef):
             return n.value.id
         fail(n, "expected <parameter>[<loop index>]")
 
-    if not (isinstance(tgt, ast.Subscript) and isinstance(tgt.value, ast.Name) and tgt.value.id == arr
-            and isinstance(tgt.slice, ast.Tuple) and len(tgt.slice.elts) == 2):
+    if not (isinstance(tgt, ast.Subscript) and isinstance(tgt.value, ast.Name) and tgt.value.id == arr):
         fail(st, "the loop must store into <array>[<first>, <second>]")
-    first, second = elem(tgt.slice.elts[0]), elem(tgt.slice.elts[1])
+    sl = tgt.slice
+    if isinstance(sl, ast.Tuple) and len(sl.elts) == 2:
+        first, second = elem(sl.elts[0]), elem(sl.elts[1])
+    else:
+        fail(st, "the loop must store into <array>[<first>, <second>]")
     if val_name is not None and isinstance(rhs, ast.Name) and rhs.id == val_name:
         pass
     elif elem(rhs) == val_param:
@@ -351,77 +414,103 @@ def _loop(inner: ast.FunctionDef):
     return params, arr, first, second, val_param, acc
 
 
+KEEP_CALLS = ("get_frame_values", "create_charges", "convert_array_to_df", "convert_df_to_array",
+              "get_vertical_pixel_center_pos", "get_horizontal_pixel_center_pos")
+
+
+def _charge_sym(tree) -> Sym:
+    cands = [n for n in ast.walk(tree) if isinstance(n, ast.ClassDef) and n.name == "Charge"]
+    if len(cands) != 1:
+        fail(None, "class Charge not found exactly once")
+    return Sym(tree, cands[0], keep=KEEP_CALLS)
+
+
+ADD_AT = "__c14_add_at__"
+
+
 def _df_to_array(tree) -> dict:
     fn = find_func(tree, "convert_df_to_array", "Charge")
-    stmts, inner, ret = [], None, None
-    for st in body_no_doc(fn):
-        if isinstance(st, (ast.Import, ast.ImportFrom)):
-            continue
-        if isinstance(st, ast.FunctionDef):
-            if inner is not None:
-                fail(st, "two inner functions")
-            inner = st
-        elif isinstance(st, ast.Return):
-            ret = st
-        elif ret is not None:
-            fail(st, "statement after return")
-        else:
-            stmts.append(st)
-    if inner is None or ret is None:
-        fail(fn, "convert_df_to_array must define the loop function and return its result")
-    env = _single_assignments(stmts, "convert_df_to_array")
-    params, arr, first, second, vals, acc = _loop(inner)
-    call = ret.value
-    if isinstance(call, ast.Name) and call.id in env:
-        call = env[call.id]
-    if not (isinstance(call, ast.Call) and isinstance(call.func, ast.Name) and call.func.id == inner.name):
-        fail(ret, "convert_df_to_array must return the call of its loop function")
-    bound = _args(call, params)
-    if set(bound) != set(params):
-        fail(call, "every parameter of the loop function must be given")
+    inner = [st for st in body_no_doc(fn) if isinstance(st, ast.FunctionDef)]
+    if len(inner) > 1:
+        fail(fn, "convert_df_to_array must define ONE loop function and return its result")
+    inner = inner[0] if inner else None
+    sym = _charge_sym(tree)
+    if inner is not None:
+        sym.keep.add(inner.name)
+    env: dict[str, ast.AST] = {}
+
+    def on_expr(st, env, aliases):
+        """`np.add.at(x, (I, J), V)` with x a local array nobody else refers to: the unbuffered in-place
+        `x[I[k], J[k]] += V[k]` for k = 0, 1, ... -- the loop, written as one numpy call"""
+        c = st.value
+        if not (isinstance(c, ast.Call) and ast.unparse(c.func) in ("np.add.at", "numpy.add.at") and not c.keywords
+                and len(c.args) == 3 and isinstance(c.args[0], ast.Name) and c.args[0].id in env):
+            return False
+        x = c.args[0].id
+        if aliases.get(x):
+            fail(st, f"np.add.at on {x}, which has an alias")
+        env[x] = ast.Call(func=ast.Name(id=ADD_AT, ctx=ast.Load()),
+                          args=[env[x], sym.expand(c.args[1], env), sym.expand(c.args[2], env)], keywords=[])
+        return True
+
+    # straight-line code read symbolically: aliases, named intermediate results and same-module helpers disappear
+    call = sym.run(body_no_doc(fn), env, where="convert_df_to_array", skip=(ast.FunctionDef,), on_expr=on_expr)
+    if call is None:
+        fail(fn, "convert_df_to_array must return the accumulated array")
+    if inner is not None and inner.name in env:
+        fail(fn, f"{inner.name} is rebound")
+    if isinstance(call, ast.Call) and isinstance(call.func, ast.Name) and call.func.id == ADD_AT:
+        idx = call.args[1]
+        if not (isinstance(idx, ast.Tuple) and len(idx.elts) == 2):
+            fail(call, "np.add.at must be given the pair (first subscripts, second subscripts)")
+        arr, first, second, vals, acc = "array", "first", "second", "vals", True
+        bound = {arr: call.args[0], first: idx.elts[0], second: idx.elts[1], vals: call.args[2]}
+    else:
+        if inner is None:
+            fail(fn, "convert_df_to_array must define the loop function and return its result")
+        params, arr, first, second, vals, acc = _loop(inner)
+        if not (isinstance(call, ast.Call) and isinstance(call.func, ast.Name) and call.func.id == inner.name):
+            fail(call, "convert_df_to_array must return the call of its loop function")
+        bound = _args(call, params)
+        if set(bound) != set(params):
+            fail(call, "every parameter of the loop function must be given")
 
     # the array: zeros of shape (row, col)
     a = bound[arr]
-    for _ in range(4):
-        if isinstance(a, ast.Name) and a.id in env:
-            a = env[a.id]
     ok_arr = False
-    if _np_call(a, ("zeros",)) and a.args:
-        shp = a.args[0]
-        if (isinstance(shp, ast.Tuple) and len(shp.elts) == 2 and _geo_attr(shp.elts[0]) == "row"
+    if _np_call(a, ("zeros",)) and (a.args or any(k.arg == "shape" for k in a.keywords)):
+        shp = a.args[0] if a.args else next(k.value for k in a.keywords if k.arg == "shape")
+        if (isinstance(shp, (ast.Tuple, ast.List)) and len(shp.elts) == 2 and _geo_attr(shp.elts[0]) == "row"
                 and _geo_attr(shp.elts[1]) == "col"):
-            extra = [ast.unparse(x) for x in a.args[1:]] + [f"{k.arg}={ast.unparse(k.value)}" for k in a.keywords]
+            extra = [ast.unparse(x) for x in a.args[1:]] + [f"{k.arg}={ast.unparse(k.value)}" for k in a.keywords
+                                                            if k.arg != "shape"]
             ok_arr = all(e in ("float", "np.float64", "dtype=float", "dtype=np.float64") for e in extra)
     if not ok_arr:
         fail(bound[arr], "the accumulated array must be np.zeros((self._geo.row, self._geo.col))")
 
     def split(node):
-        """argument -> (base name, mask expr | None)"""
-        if isinstance(node, ast.Subscript) and isinstance(node.value, ast.Name):
-            return node.value.id, node.slice
-        if isinstance(node, ast.Name):
-            return node.id, None
-        fail(node, "loop argument must be <name> or <name>[<mask>]")
+        """argument -> (base expression, mask expression | None)"""
+        if (isinstance(node, ast.Subscript) and not isinstance(node.slice, (ast.Constant, ast.Slice, ast.Tuple))
+                and _frame_quantity(node) is None):
+            return node.value, node.slice
+        return node, None
 
     (nf, mf), (ns, ms), (nv, mv) = split(bound[first]), split(bound[second]), split(bound[vals])
     masks = {None if m is None else ast.unparse(m) for m in (mf, ms, mv)}
     if len(masks) != 1:
         fail(call, "values and both index arrays must carry the same mask")
-    for n in (nf, ns, nv):
-        if n not in env:
-            fail(call, f"{n} is not assigned in convert_df_to_array")
-    if nf == ns:
-        fail(call, "both subscripts come from the same array")
-    ix = _IndexExpr(env)
-    kf, tf = ix.tr(env[nf])
-    ks, ts = ix.tr(env[ns])
+    ix = _IndexExpr({})
+    kf, tf = ix.tr(nf)
+    ks, ts = ix.tr(ns)
     if kf != "Z" or ks != "Z":
         fail(call, "an index array must be converted to integers")
-    keep = "true" if mf is None else _mask_expr(mf, env, nf, ns)
-    vq = _frame_quantity(env[nv])
+    if tf == ts:
+        fail(call, "both subscripts come from the same array")
+    keep = "true" if mf is None else _mask_expr(mf, tf, ts)
+    vq = _frame_quantity(nv)
     if vq is None:
-        fail(env[nv], "the accumulated values must be a frame column")
-    return dict(iv=tf, ih=ts, keep=keep, acc=acc, number=(vq == "number"))
+        fail(nv, "the accumulated values must be a frame column")
+    return dict(iv=tf, ih=ts, keep=keep, acc=acc, number=(vq == "number"), _inlined=list(sym.inlined))
 
 
 # ------------------------------------------------------------------------------------------ geometry.py centres
@@ -450,14 +539,12 @@ def _centre_fn(tree, name: str, count_param: str, other_param: str, size_param: 
     params = [a.arg for a in fn.args.args + fn.args.kwonlyargs]
     if sorted(params) != sorted([count_param, other_param, size_param]):
         fail(fn, f"{name} parameters")
-    env: dict[str, dict] = {}
+    sym = Sym(tree)
 
     def poly(n):
         if isinstance(n, ast.Name):
             if n.id == size_param:
                 return {(0, 1): Fraction(1)}
-            if n.id in env:
-                return env[n.id]
             fail(n, "unknown name in a centre expression")
         v = _num(n)
         if v is not None:
@@ -470,6 +557,9 @@ def _centre_fn(tree, name: str, count_param: str, other_param: str, size_param: 
                     or not (isinstance(a.get("stop"), ast.Name) and a["stop"].id == count_param)):
                 fail(n, f"expected np.arange(0, {count_param}, 1)")
             return {(1, 0): Fraction(1)}
+        if _np_call(n, ("add", "subtract", "multiply")) and len(n.args) == 2 and not n.keywords:
+            l, r = poly(n.args[0]), poly(n.args[1])
+            return {"add": _poly_add(l, r), "subtract": _poly_add(l, r, -1), "multiply": _poly_mul(l, r)}[n.func.attr]
         if isinstance(n, ast.BinOp):
             if isinstance(n.op, ast.Add):
                 return _poly_add(poly(n.left), poly(n.right))
@@ -486,35 +576,24 @@ def _centre_fn(tree, name: str, count_param: str, other_param: str, size_param: 
             return {m: -c for m, c in poly(n.operand).items()}
         fail(n, "centre expression shape not accepted")
 
-    body = body_no_doc(fn)
-    if not body or not isinstance(body[-1], ast.Return):
+    # straight-line code read symbolically: local names, `x += ..` and same-module helpers disappear; what is left
+    # is one expression over the three parameters
+    env: dict[str, ast.AST] = {}
+    r = sym.run(body_no_doc(fn), env, where=name)
+    if r is None:
         fail(fn, f"{name} must end with a return")
-    for st in body[:-1]:
-        if isinstance(st, ast.Assign) and len(st.targets) == 1 and isinstance(st.targets[0], ast.Name):
-            env[st.targets[0].id] = poly(st.value)
-        elif isinstance(st, ast.AnnAssign) and isinstance(st.target, ast.Name) and st.value is not None:
-            env[st.target.id] = poly(st.value)
-        elif isinstance(st, ast.AugAssign) and isinstance(st.target, ast.Name) and st.target.id in env:
-            cur, rhs = env[st.target.id], poly(st.value)
-            if isinstance(st.op, ast.Add):
-                env[st.target.id] = _poly_add(cur, rhs)
-            elif isinstance(st.op, ast.Sub):
-                env[st.target.id] = _poly_add(cur, rhs, -1)
-            elif isinstance(st.op, ast.Mult):
-                env[st.target.id] = _poly_mul(cur, rhs)
-            else:
-                fail(st, "augmented assignment not accepted")
-        else:
-            fail(st, f"{name}: statement shape not accepted")
-    r = body[-1].value
+    for p_ in params:
+        if p_ in env:
+            fail(fn, f"{name}: parameter {p_} is rebound")
     want = "repeat" if layout == "repeat" else "tile"
     if not _np_call(r, (want,)):
         fail(r, f"{name} must return np.{want}(<centres>, {other_param})")
-    a = _args(r, ["a", "repeats"] if want == "repeat" else ["A", "reps"])
-    vals = list(a.values())
-    if len(vals) != 2 or not (isinstance(vals[1], ast.Name) and vals[1].id == other_param):
+    names = ["a", "repeats"] if want == "repeat" else ["A", "reps"]
+    a = _args(r, names)
+    vals = [a.get(names[0]), a.get(names[1])]
+    if len(a) != 2 or None in vals or not (isinstance(vals[1], ast.Name) and vals[1].id == other_param):
         fail(r, f"{name} must return np.{want}(<centres>, {other_param})")
-    return poly(vals[0])
+    return poly(vals[0]), list(sym.inlined)
 
 
 def _centre_text(p: dict, s: str) -> str:
@@ -532,38 +611,56 @@ def _centre_text(p: dict, s: str) -> str:
 # ------------------------------------------------------------------------------------------ convert_array_to_df
 
 
-def _array_to_df(tree) -> dict:
+def _array_to_df(tree, gtree) -> dict:
     fn = find_func(tree, "convert_array_to_df", "Charge")
     params = [a.arg for a in fn.args.args + fn.args.kwonlyargs]
     need = ["array", "num_rows", "num_cols", "pixel_vertical_size", "pixel_horizontal_size"]
     if sorted(params) != sorted(need):
         fail(fn, "convert_array_to_df parameters")
-    env: dict[str, tuple] = {}
-    thr: list[str] = []
+    imports = imported_names(tree)
 
-    def straight(call, mapping):
-        a = {k.arg: k.value for k in call.keywords}
-        if call.args or set(a) != set(mapping):
-            fail(call, "pixel-centre helper must be called with its three keywords")
+    def centre_helper(f) -> str | None:
+        """the function of geometry.py a callee refers to (whatever it is imported as)"""
+        if isinstance(f, ast.Name):
+            mod, orig = imports.get(f.id, (None, None))
+            if mod is not None and mod.split(".")[-1] == "geometry" and orig in (
+                    "get_vertical_pixel_center_pos", "get_horizontal_pixel_center_pos"):
+                return orig
+        if isinstance(f, ast.Attribute) and isinstance(f.value, ast.Name) and f.attr in (
+                "get_vertical_pixel_center_pos", "get_horizontal_pixel_center_pos"):
+            mod, orig = imports.get(f.value.id, (None, None))
+            if mod is not None and (orig == "geometry" or (orig is None and mod.split(".")[-1] == "geometry")):
+                return f.attr
+        return None
+
+    def straight(call, helper, mapping):
+        """every parameter of the geometry helper receives the parameter of the same meaning"""
+        g = find_func(gtree, helper)
+        a = _args(call, [x.arg for x in g.args.posonlyargs + g.args.args + g.args.kwonlyargs])
+        if set(a) != set(mapping):
+            fail(call, "pixel-centre helper must be given its three arguments")
         for k, v in mapping.items():
             if not (isinstance(a[k], ast.Name) and a[k].id == v):
                 fail(call, f"{k} must be passed {v}")
 
     def sym(n) -> tuple:
         if isinstance(n, ast.Name):
-            if n.id in env:
-                return env[n.id]
             if n.id == "array":
                 return ("array",)
             return ("other",)
         if (isinstance(n, ast.Call) and isinstance(n.func, ast.Attribute) and n.func.attr in ("flatten", "ravel")
                 and not n.args and not n.keywords and sym(n.func.value) == ("array",)):
             return ("flat",)
-        if isinstance(n, ast.Compare) and len(n.ops) == 1 and sym(n.left) == ("flat",):
-            c = _num(n.comparators[0])
+        if _np_call(n, ("ravel",)) and len(n.args) == 1 and not n.keywords and sym(n.args[0]) == ("array",):
+            return ("flat",)
+        if isinstance(n, ast.Compare) and len(n.ops) == 1 and (sym(n.left) == ("flat",) or sym(n.comparators[0]) == ("flat",)):
+            op, other = n.ops[0], n.comparators[0]
+            if sym(n.left) != ("flat",):               # `0.0 < flat`  ==  `flat > 0.0`
+                other = n.left
+                op = {ast.Gt: ast.Lt, ast.Lt: ast.Gt, ast.GtE: ast.LtE, ast.LtE: ast.GtE}.get(type(op), type(op))()
+            c = _num(other)
             if c is None:
                 fail(n, "the selection threshold must be a number")
-            op = n.ops[0]
             if isinstance(op, ast.Gt):
                 t = f"negb (Qle_bool x {_q(c)})"
             elif isinstance(op, ast.GtE):
@@ -589,32 +686,34 @@ def _array_to_df(tree) -> dict:
             if i[0] == "sel" and b[0] in ("flat", "vc", "hc"):
                 return ({"flat": "entries", "vc": "vsel", "hc": "hsel"}[b[0]], i[1])
             fail(n, "subscript shape not accepted")
-        if isinstance(n, ast.Call) and isinstance(n.func, ast.Name):
-            if n.func.id == "get_vertical_pixel_center_pos":
-                straight(n, dict(num_rows="num_rows", num_cols="num_cols", pixel_vertical_size="pixel_vertical_size"))
+        if isinstance(n, ast.Call):
+            h = centre_helper(n.func)
+            if h == "get_vertical_pixel_center_pos":
+                straight(n, h, dict(num_rows="num_rows", num_cols="num_cols", pixel_vertical_size="pixel_vertical_size"))
                 return ("vc",)
-            if n.func.id == "get_horizontal_pixel_center_pos":
-                straight(n, dict(num_rows="num_rows", num_cols="num_cols",
-                                 pixel_horizontal_size="pixel_horizontal_size"))
+            if h == "get_horizontal_pixel_center_pos":
+                straight(n, h, dict(num_rows="num_rows", num_cols="num_cols",
+                                    pixel_horizontal_size="pixel_horizontal_size"))
                 return ("hc",)
         return ("other",)
 
-    body = body_no_doc(fn)
-    if not body or not isinstance(body[-1], ast.Return):
+    # straight-line code read symbolically (aliases, reassigned names, same-module helpers disappear)
+    sx = _charge_sym(tree)
+    env: dict[str, ast.AST] = {}
+    r = sx.run(body_no_doc(fn), env, where="convert_array_to_df")
+    if r is None:
         fail(fn, "convert_array_to_df must end with a return")
-    for st in body[:-1]:
-        if isinstance(st, ast.Assign) and len(st.targets) == 1 and isinstance(st.targets[0], ast.Name):
-            env[st.targets[0].id] = sym(st.value)
-        elif isinstance(st, ast.AnnAssign) and isinstance(st.target, ast.Name) and st.value is not None:
-            env[st.target.id] = sym(st.value)
-        else:
-            fail(st, "convert_array_to_df: statement shape not accepted")
-    r = body[-1].value
+    for p_ in params:
+        if p_ in env:
+            fail(fn, f"convert_array_to_df: parameter {p_} is rebound")
     if not (isinstance(r, ast.Call) and ast.unparse(r.func) in ("Charge.create_charges", "cls.create_charges")
             and not r.args):
-        fail(body[-1], "convert_array_to_df must return Charge.create_charges(...)")
+        fail(r, "convert_array_to_df must return Charge.create_charges(...)")
     kw = {k.arg: k.value for k in r.keywords}
-    n, v, h = sym(kw.get("particles_per_cluster")), sym(kw.get("init_ver_position")), sym(kw.get("init_hor_position"))
+    for need_kw in ("particles_per_cluster", "init_ver_position", "init_hor_position"):
+        if need_kw not in kw:
+            fail(r, f"create_charges is not given {need_kw}")
+    n, v, h = sym(kw["particles_per_cluster"]), sym(kw["init_ver_position"]), sym(kw["init_hor_position"])
     if n[0] != "entries" or v[0] != "vsel" or h[0] != "hsel" or not (n[1] == v[1] == h[1]):
         fail(r, "number / vertical / horizontal positions must be the selected entries and the selected centres")
     pt = kw.get("particle_type")
@@ -625,13 +724,41 @@ def _array_to_df(tree) -> dict:
 
 def _create_charges(tree):
     fn = find_func(tree, "create_charges", "Charge")
+    params = {a.arg for a in fn.args.args + fn.args.kwonlyargs + fn.args.posonlyargs}
+    # a local name bound exactly once, to a parameter, stands for that parameter
+    binds: dict[str, list] = {}
+    for n in ast.walk(fn):
+        if isinstance(n, ast.Assign):
+            for t in n.targets:
+                for e in ast.walk(t):
+                    if isinstance(e, ast.Name):
+                        binds.setdefault(e.id, []).append(n.value if t is e else None)
+        elif isinstance(n, (ast.AnnAssign, ast.AugAssign, ast.NamedExpr)) and isinstance(n.target, ast.Name):
+            binds.setdefault(n.target.id, []).append(n.value if isinstance(n, ast.AnnAssign) else None)
+        elif isinstance(n, (ast.For, ast.comprehension)):
+            for e in ast.walk(n.target):
+                if isinstance(e, ast.Name):
+                    binds.setdefault(e.id, []).append(None)
+
+    def param_of(v):
+        for _ in range(5):
+            if not isinstance(v, ast.Name):
+                return None
+            if v.id in binds:
+                if len(binds[v.id]) != 1 or binds[v.id][0] is None:
+                    return None
+                v = binds[v.id][0]
+                continue
+            return v.id if v.id in params else None
+        return None
+
     dicts = [n for n in ast.walk(fn) if isinstance(n, ast.Dict)]
     want = {"number": "particles_per_cluster", "position_ver": "init_ver_position", "position_hor": "init_hor_position"}
     for d in dicts:
         got = {}
         for k, v in zip(d.keys, d.values):
             if isinstance(k, ast.Constant) and k.value in want:
-                got[k.value] = v.id if isinstance(v, ast.Name) else None
+                got[k.value] = param_of(v)
         if got:
             if got != want:
                 fail(d, "create_charges must feed number / position_ver / position_hor from their own parameters")
@@ -693,6 +820,10 @@ def _join(classes):
 
 class _Alias:
     """Classifies expressions of one method: FRESH | STORED | FRAME | PROP | ("param", name) | ("unknown",)."""
+
+    # helpers of the class / the module whose RESULT is classified by reading their own returns (set by _identity)
+    helpers: dict[str, tuple] = {}      # key -> (FunctionDef, number of leading parameters the call does not pass)
+    _active: list[str] = []
 
     def __init__(self, fn: ast.FunctionDef):
         self.fn = fn
@@ -775,6 +906,9 @@ class _Alias:
                         return self.cls(n.args[0], d) if (c is None or not _is_true(c)) else FRESH
                     return FRESH
                 return ("unknown",)
+            h = self._helper_result(n, d)
+            if h is not None:
+                return h
             if isinstance(f, ast.Attribute):
                 recv = f.value
                 if ast.unparse(f) in ("self.convert_df_to_array", "Charge.convert_array_to_df", "cls.convert_array_to_df",
@@ -795,6 +929,48 @@ class _Alias:
                 return ("unknown",)
             return ("unknown",)
         return ("unknown",)
+
+    def _helper_result(self, call: ast.Call, d: int):
+        """`self._h(..)` / `_h(..)` with `_h` a private helper of the class / module: the join of what its `return`s
+        are, a returned parameter standing for the argument it receives.  None = not such a helper."""
+        f = call.func
+        if isinstance(f, ast.Attribute) and isinstance(f.value, ast.Name) and f.value.id in ("self", "cls", "Charge"):
+            key = "self." + f.attr
+        elif isinstance(f, ast.Name):
+            key = f.id
+        else:
+            return None
+        got = _Alias.helpers.get(key)
+        if got is None or key in _Alias._active or len(_Alias._active) > 4:
+            return None
+        h, skip = got
+        if skip and isinstance(f, ast.Attribute) and f.value.id != "self" and not h.decorator_list:
+            return None                        # an instance method called through the class: not followed
+        a = h.args
+        if a.vararg or a.kwarg or any(isinstance(x, ast.Starred) for x in call.args) or any(
+                k.arg is None for k in call.keywords):
+            return ("unknown",)
+        pos = [x.arg for x in a.posonlyargs + a.args][skip:]
+        bound = dict(zip(pos, call.args))
+        for k in call.keywords:
+            bound[k.arg] = k.value
+        _Alias._active.append(key)
+        try:
+            sub = _Alias(h)
+            rets = [r for r in ast.walk(h) if isinstance(r, ast.Return)]
+            if not rets or any(r.value is None for r in rets):
+                return ("unknown",)
+            if any(c[0] == "param" or c == ("unknown",) for c, _ in sub.written()):
+                return ("unknown",)            # the helper writes into something it was given: not a pure producer
+            out = []
+            for r in rets:
+                c = sub.cls(r.value)
+                if c[0] == "param":
+                    c = self.cls(bound[c[1]], d) if c[1] in bound else ("unknown",)
+                out.append(c)
+            return _join(out)
+        finally:
+            _Alias._active.pop()
 
     # -- statements that write INTO an object ----------------------------------------------------------------
 
@@ -834,8 +1010,9 @@ class _Alias:
                         yield self.cls(n.args[0]), n
 
 
-def _mentions(node, names) -> bool:
-    return any(isinstance(n, ast.Name) and n.id in names for n in ast.walk(node))
+def _mentions(node, al) -> bool:
+    """the expression is computed from a parameter (directly or through a local alias of one)"""
+    return any(isinstance(n, ast.Name) and (n.id in al.params or al.cls(n)[0] == "param") for n in ast.walk(node))
 
 
 def _is_sum(al, v) -> bool:
@@ -847,7 +1024,7 @@ def _is_sum(al, v) -> bool:
     else:
         return False
     for a, b in ((l, r), (r, l)):
-        if al.cls(a) in (STORED, PROP) and al.cls(b)[0] in ("param", "fresh") and _mentions(b, al.params):
+        if al.cls(a) in (STORED, PROP) and al.cls(b)[0] in ("param", "fresh") and _mentions(b, al):
             return True
     return False
 
@@ -885,8 +1062,33 @@ def _identity(tree) -> dict:
     cands = [n for n in ast.walk(tree) if isinstance(n, ast.ClassDef) and n.name == "Charge"]
     if len(cands) != 1:
         fail(None, "class Charge not found exactly once")
-    methods = [n for n in cands[0].body if isinstance(n, ast.FunctionDef)]
-    res = dict(add=None, writes_arg=False, df_adopts=False, binds_param=False)
+    # private helper methods called as statements are read as part of their caller (every method is ALSO analysed
+    # on its own, so a helper that keeps or writes one of its parameters is still reported)
+    raw = [n for n in cands[0].body if isinstance(n, ast.FunctionDef)]
+    _Alias.helpers = {}
+    by_name: dict[str, list] = {}
+    for n in raw:
+        by_name.setdefault(n.name, []).append(n)
+    for name, fns in by_name.items():
+        if len(fns) != 1 or not name.startswith("_") or name.startswith("__"):
+            continue
+        decs = [ast.unparse(d) for d in fns[0].decorator_list]
+        if decs == [] and fns[0].args.args and fns[0].args.args[0].arg == "self":
+            _Alias.helpers["self." + name] = (fns[0], 1)
+        elif decs == ["staticmethod"]:
+            _Alias.helpers["self." + name] = (fns[0], 0)
+        elif decs == ["classmethod"]:
+            _Alias.helpers["self." + name] = (fns[0], 1)
+    mod_fns: dict[str, list] = {}
+    for n in tree.body:
+        if isinstance(n, ast.FunctionDef):
+            mod_fns.setdefault(n.name, []).append(n)
+    for name, fns in mod_fns.items():
+        if len(fns) == 1 and not fns[0].decorator_list:
+            _Alias.helpers[name] = (fns[0], 0)
+    methods = [inline_method_calls(cands[0], n) for n in raw]
+    followed = sorted({h for fn in methods for h in getattr(fn, "c14_inlined", [])})
+    res = dict(add=None, writes_arg=False, df_adopts=False, binds_param=False, _inlined_methods=followed)
     modes = set()
     for fn in methods:
         al = _Alias(fn)
@@ -921,11 +1123,14 @@ def _identity(tree) -> dict:
             elif c == STORED and fn.name == "add_charge_array":
                 # in-place accumulation: `self._array += <argument>`, `self._array[...] += <argument>`,
                 # `self._array[...] = self._array + <argument>`, np.add(self._array, <argument>, out=self._array)
-                def stored_target(t):
-                    return _self_attr(t, ("_array",)) or (isinstance(t, ast.Subscript) and _self_attr(t.value, ("_array",)))
+                def stored_target(t, al=al):
+                    """self._array, a local alias of it, or a slice of either"""
+                    if isinstance(t, ast.Subscript):
+                        t = t.value
+                    return bool(_self_attr(t, ("_array",))) or (isinstance(t, ast.Name) and al.cls(t) == STORED)
 
                 if isinstance(node, ast.AugAssign) and isinstance(node.op, ast.Add) and stored_target(node.target):
-                    if not _mentions(node.value, al.params):
+                    if not _mentions(node.value, al):
                         fail(node, "add_charge_array: `self._array += ...` must add the argument")
                     modes.add("AddInPlace")
                 elif (isinstance(node, ast.Assign) and len(node.targets) == 1 and isinstance(node.targets[0], ast.Subscript)
@@ -979,7 +1184,12 @@ def _identity(tree) -> dict:
     if len(props) != 1:
         fail(None, "the `array` property of Charge was not found exactly once")
     al = _Alias(props[0])
-    cs = {al.cls(r.value) for r in returns(props[0])}
+    # a local name that is ALSO bound to self._array in the property (`new = self.convert_df_to_array();
+    # self._array = new; return new`) is the stored object
+    now_stored = {n.value.id for n in ast.walk(props[0]) if isinstance(n, ast.Assign) and isinstance(n.value, ast.Name)
+                  and any(_self_attr(t, ("_array",)) for t in n.targets)}
+    cs = {STORED if isinstance(r.value, ast.Name) and r.value.id in now_stored and al.cls(r.value) == FRESH
+          else al.cls(r.value) for r in returns(props[0])}
     if cs == {STORED}:
         res["array_exposes"] = True
     elif cs == {FRESH}:
@@ -1030,6 +1240,9 @@ def _identity(tree) -> dict:
 # ------------------------------------------------------------------------------------------ entry point
 
 
+NORMALISED: list[str] = []      # helpers followed by the last translate() (evidence only)
+
+
 def render(d: dict) -> str:
     def b(x) -> str:
         return "true" if x else "false"
@@ -1071,11 +1284,12 @@ def translate(repo: Path) -> str:
     tree = parse(repo, CHARGE)
     gtree = parse(repo, GEOM)
     d = _df_to_array(tree)
-    d.update(_array_to_df(tree))
+    d.update(_array_to_df(tree, gtree))
     d.update(_identity(tree))
     _create_charges(tree)
-    pv = _centre_fn(gtree, "get_vertical_pixel_center_pos", "num_rows", "num_cols", "pixel_vertical_size", "repeat")
-    ph = _centre_fn(gtree, "get_horizontal_pixel_center_pos", "num_cols", "num_rows", "pixel_horizontal_size", "tile")
+    pv, i1 = _centre_fn(gtree, "get_vertical_pixel_center_pos", "num_rows", "num_cols", "pixel_vertical_size", "repeat")
+    ph, i2 = _centre_fn(gtree, "get_horizontal_pixel_center_pos", "num_cols", "num_rows", "pixel_horizontal_size", "tile")
+    NORMALISED[:] = sorted(set(d.pop("_inlined", []) + i1 + i2 + d.pop("_inlined_methods", [])))
     d["cv"] = _centre_text(pv, "sv")
     d["ch"] = _centre_text(ph, "sh")
     return render(d)
